@@ -285,11 +285,32 @@ func c12Verify(r *vsRun, ack *c12Ack, inFlight map[string]bool, crashed bool) {
 		imported[n] = true
 	}
 	want := c12CanonMap(r.expectedStreams(imported))
-	// an import job parked at the crash took a prefix of the queue that existed then
+	// an import job parked at the crash took a prefix of the queue that existed then; the captures behind it were
+	// never imported but lie in the capture directory: later imports replay them for the flows they touch, unless a
+	// reassembly snapshot lets them start behind those captures. Per stream any subset of the queue may show.
 	alts := []map[string]string{want}
+	queue := []string{}
+	seenQ := map[string]bool{}
 	for _, n := range r.maybeQueue {
-		imported[n] = true
-		alts = append(alts, c12CanonMap(r.expectedStreams(imported)))
+		if !seenQ[n] && !imported[n] {
+			seenQ[n] = true
+			queue = append(queue, n)
+		}
+	}
+	if len(queue) > 8 {
+		queue = queue[:8]
+	}
+	for mask := 1; mask < 1<<len(queue); mask++ {
+		set := map[string]bool{}
+		for n := range imported {
+			set[n] = true
+		}
+		for i, n := range queue {
+			if mask&(1<<i) != 0 {
+				set[n] = true
+			}
+		}
+		alts = append(alts, c12CanonMap(r.expectedStreams(set)))
 	}
 	// per conversation: queued captures that never got imported are still replayed by later imports for the
 	// flows those touch, so each stream may correspond to a different prefix
